@@ -337,6 +337,10 @@ class Lexer:
                     "Unclosed tag: <%%%s>" % self.tag[-1].keyword,
                     **self.exception_kwargs,
                 )
+            if match.end() == match.start():
+                # empty body: match_reg() has stepped over the "<" of the
+                # "</%text>" that follows; step back onto it
+                self.match_position = match.end()
             self.append_node(parsetree.Text, match.group(1))
             return self.match_tag_end()
         return True
@@ -407,6 +411,12 @@ class Lexer:
             text = match.group(1)
             if text:
                 self.append_node(parsetree.Text, text)
+            elif match.end() == match.start() < self.textlength:
+                # the regex matched the empty string (a "</%" that is not a
+                # closing tag, or a "%" / "##" line that is not a control
+                # line), so match_reg() has stepped over one character to
+                # guarantee progress; that character is literal text
+                self.append_node(parsetree.Text, self.text[match.start()])
             return True
         else:
             return False
